@@ -86,6 +86,14 @@ func (p Parser) Parse(src io.Reader) (f File) {
 			return f
 		}
 
+		if n := aliasExpansion(&doc, map[*yaml.Node]int{}); n > maxAliasExpansion {
+			f.Error = ParseError{
+				Err:  fmt.Errorf("yaml aliases of this document expand to more than %d nodes", maxAliasExpansion),
+				Line: doc.Line,
+			}
+			return f
+		}
+
 		if p.isStrict {
 			if n := nullTagWithText(&doc, map[*yaml.Node]struct{}{}); n != nil {
 				f.Error = ParseError{
@@ -583,6 +591,30 @@ func aliasCycle(node *yaml.Node, visiting map[*yaml.Node]bool) *yaml.Node {
 	}
 	visiting[node] = false
 	return nil
+}
+
+// maxAliasExpansion bounds the size of the tree a document unfolds to when every alias is replaced by its anchor:
+// the parse functions walk that tree, and `a: &a [*b, *b]` chains double it with every level.
+const maxAliasExpansion = 1_000_000
+
+// aliasExpansion returns the number of nodes of that tree (saturating just above the limit).
+func aliasExpansion(node *yaml.Node, memo map[*yaml.Node]int) int {
+	if node == nil {
+		return 0
+	}
+	if n, ok := memo[node]; ok {
+		return n
+	}
+	memo[node] = 1
+	total := 1 + aliasExpansion(node.Alias, memo)
+	for _, child := range node.Content {
+		if total > maxAliasExpansion {
+			break
+		}
+		total += aliasExpansion(child, memo)
+	}
+	memo[node] = total
+	return total
 }
 
 // nullTagWithText returns the first scalar explicitly tagged !!null that yaml does not resolve to a null
